@@ -712,7 +712,7 @@ func exec(cs vh.Case, o *vh.Out) {
 			tok = c.stepD()
 		case "drain":
 			var msgs []string
-			for n := 0; n < 200; n++ {
+			for n := 0; n < 400; n++ {
 				c.settle(o)
 				if c.phase == phIdle && (c.loop || !c.mq.HasMessage()) {
 					break
@@ -729,6 +729,11 @@ func exec(cs vh.Case, o *vh.Out) {
 				case phFlight:
 					c.stepD()
 				}
+			}
+			if !c.loop && (c.phase != phIdle || c.mq.HasMessage()) {
+				// the property's convergence clause: with nothing else going on, repeated send cycles
+				// must empty the queue (at most one cycle per pending want / queued cancel is needed)
+				o.Fail("no-convergence", "100 send cycles did not make the queue idle (phase %d, HasMessage=%v)", c.phase, c.mq.HasMessage())
 			}
 			tok = "drain " + strings.Join(msgs, "|") + " " + c.peerS()
 		default:
